@@ -50,7 +50,7 @@ theorem codeC_of_cell {h : CHeap} {l : Nat} {lam : CLambda} (hc : h.cells[l]? = 
 /-- **The invariant of concrete heaps** (`CodeLaws.HInv`). The semantic content is `lamVer`: every lambda
     cell passes `verifyLam` — what the `bytecode-verifier` stream checks on every lambda object of the
     real heap on every run. -/
-structure CInv (h : CHeap) : Prop where
+structure CInvG (V : VCell → Prop) (h : CHeap) : Prop where
   sizes : h.gc.size = h.cells.size
   shape : 0 < h.chunk ∧ h.chunk % 4 = 0 ∧ ∃ k, 0 < k ∧ h.cells.size = k * h.chunk
   noUsed : ∀ i : Nat, h.gc[i]? ≠ some GcState.used
@@ -62,7 +62,22 @@ structure CInv (h : CHeap) : Prop where
       `build_closure_environment` therefore never reads the stack. -/
   noIofArg : ∀ (l : Nat) (lam : CLambda), h.cells[l]? = some (CCell.lambda lam) →
     ∀ x ∈ lam.envmap, ∀ n, x.2 ≠ Source.iofArg n
-  cont : ∀ (p : Nat) (c : Cont), h.cells[p]? = some (CCell.cont c) → ∃ K, ContWF (tyOf (codeC h)) 0 c K
+  /-- a lambda's formals cover the argument cells its code addresses (`compile.rs` emits
+      `BasePointerOffset(bp - argc + i + 1)` for formal `i` only; compared on every real lambda by the
+      `bytecode-verifier` stream) -/
+  lamArgs : ∀ (l : Nat) (lam : CLambda), h.cells[l]? = some (CCell.lambda lam) → argNeed lam.bc ≤ lam.args.length
+  cont : ∀ (p : Nat) (c : Cont), h.cells[p]? = some (CCell.cont c) → ∃ K, ContWF V (tyOf (codeC h)) 0 c K
+
+/-- the invariant with the shape of the frame chains alone (values unconstrained) -/
+abbrev CInv := CInvG (fun _ => True)
+
+variable {V : VCell → Prop}
+
+/-- the value-typed invariant implies the untyped one -/
+theorem CInvG.weaken {V' : VCell → Prop} (hV : ∀ v, V v → V' v) {h : CHeap} (inv : CInvG V h) : CInvG V' h :=
+  ⟨inv.sizes, inv.shape, inv.noUsed, inv.lamFree, inv.lamVer, inv.noIofArg, inv.lamArgs, fun p c hc => by
+    obtain ⟨K, hk⟩ := inv.cont p c hc
+    exact ⟨K, hk.cap, hk.frames.weaken hV, hk.body⟩⟩
 
 /-- `h'` is a later heap, as far as code objects are concerned -/
 structure Grows (P : Cont → Prop) (h h' : CHeap) : Prop where
@@ -82,7 +97,7 @@ theorem lt_of_getElem? {α : Type} {a : Array α} {i : Nat} {v : α} (h : a[i]? 
   · exact hl
   · rw [Array.getElem?_eq_none (by omega)] at h; cases h
 
-theorem Grows.refl {P : Cont → Prop} {h : CHeap} (inv : CInv h) : Grows P h h :=
+theorem Grows.refl {P : Cont → Prop} {h : CHeap} (inv : CInvG V h) : Grows P h h :=
   ⟨inv.sizes, inv.shape, inv.noUsed, Nat.le_refl _, fun _ _ x => x, fun _ _ x => x, fun _ _ x => .inl x,
     fun _ x => .inl x⟩
 
@@ -108,11 +123,11 @@ theorem Grows.code {P : Cont → Prop} {h h' : CHeap} (g : Grows P h h') {l : Na
   obtain ⟨lam, h1, h2⟩ := codeC_some hc
   rw [codeC_of_cell (g.keep l lam h1), h2]
 
-theorem Grows.inv {P : Cont → Prop} {h h' : CHeap} (inv : CInv h) (g : Grows P h h')
-    (hP : ∀ c, P c → ∃ K, ContWF (tyOf (codeC h)) 0 c K) : CInv h' := by
+theorem Grows.inv {P : Cont → Prop} {h h' : CHeap} (inv : CInvG V h) (g : Grows P h h')
+    (hP : ∀ c, P c → ∃ K, ContWF V (tyOf (codeC h)) 0 c K) : CInvG V h' := by
   have hty : ∀ l t, tyOf (codeC h) l = some t → tyOf (codeC h') l = some t :=
     tyOf_mono (fun l bc hc => g.code hc)
-  refine ⟨g.sizes, g.shape, g.noUsed, ?_, ?_, ?_, ?_⟩
+  refine ⟨g.sizes, g.shape, g.noUsed, ?_, ?_, ?_, ?_, ?_⟩
   · intro l lam hl hm
     have hold := g.newLam l lam hl
     rcases g.free l hm with h1 | h1
@@ -122,17 +137,26 @@ theorem Grows.inv {P : Cont → Prop} {h h' : CHeap} (inv : CInv h) (g : Grows P
     exact inv.lamVer l lam (g.newLam l lam hl)
   · intro l lam hl
     exact inv.noIofArg l lam (g.newLam l lam hl)
+  · intro l lam hl
+    exact inv.lamArgs l lam (g.newLam l lam hl)
   · intro p c hc
-    have : ∃ K, ContWF (tyOf (codeC h)) 0 c K := by
+    have : ∃ K, ContWF V (tyOf (codeC h)) 0 c K := by
       rcases g.newCont p c hc with h1 | h1
       · exact inv.cont p c h1
       · exact hP c h1
     obtain ⟨K, hk⟩ := this
-    exact ⟨K, hk.cap, hk.frames.mono hty⟩
+    refine ⟨K, hk.cap, hk.frames.mono hty, ?_⟩
+    intro t ht
+    obtain ⟨t0, _, ht0, _⟩ := hk.frames.has_ty
+    have := hty _ _ ht0
+    rw [ht] at this
+    have e : t = t0 := Option.some.inj this
+    rw [e]
+    exact hk.body t0 ht0
 
 /-! ## heaps that differ outside cells / map / free list -/
 
-theorem Grows.of_eq {P : Cont → Prop} {h h' : CHeap} (inv : CInv h) (hc : h'.cells = h.cells) (hg : h'.gc = h.gc)
+theorem Grows.of_eq {P : Cont → Prop} {h h' : CHeap} (inv : CInvG V h) (hc : h'.cells = h.cells) (hg : h'.gc = h.gc)
     (hf : h'.free = h.free) (hk : h'.chunk = h.chunk) : Grows P h h' := by
   refine ⟨by rw [hg, hc]; exact inv.sizes, by rw [hk, hc]; exact inv.shape, by rw [hg]; exact inv.noUsed,
     by rw [hc]; exact Nat.le_refl _, ?_, ?_, ?_, ?_⟩
@@ -143,7 +167,7 @@ theorem Grows.of_eq {P : Cont → Prop} {h h' : CHeap} (inv : CInv h) (hc : h'.c
 
 /-! ## the allocator -/
 
-theorem takeFree_grows {P : Cont → Prop} {h : CHeap} (inv : CInv h) {p : Nat} {rest : List Nat}
+theorem takeFree_grows {P : Cont → Prop} {h : CHeap} (inv : CInvG V h) {p : Nat} {rest : List Nat}
     (hf : h.free = p :: rest) : Grows P h (takeFree h p rest).1 := by
   refine ⟨by simp [takeFree, inv.sizes], inv.shape, ?_, Nat.le_refl _, fun _ _ x => x, fun _ _ x => x,
     fun _ _ x => .inl x, ?_⟩
@@ -170,7 +194,7 @@ theorem cgrow_cells_new (h : CHeap) {i : Nat} {c : CCell} (hi : h.cells.size ≤
   · cases hc; rfl
   · cases hc
 
-theorem cgrow_grows {P : Cont → Prop} {h : CHeap} (inv : CInv h) : Grows P h (cgrow h) := by
+theorem cgrow_grows {P : Cont → Prop} {h : CHeap} (inv : CInvG V h) : Grows P h (cgrow h) := by
   obtain ⟨hc, h4, k, hk, hsize⟩ := inv.shape
   have hsz : (cgrow h).cells.size = h.cells.size + (Heap.Heap.grownSize h.chunk h.cells.size - h.cells.size) := by
     simp [cgrow]
@@ -209,7 +233,7 @@ theorem cgrow_grows {P : Cont → Prop} {h : CHeap} (inv : CInv h) : Grows P h (
     · exact .inl h1
 
 /-- the address an allocation returns does not hold a lambda (it was on the free list, or it is fresh) -/
-theorem calloc_grows {h : CHeap} (inv : CInv h) :
+theorem calloc_grows {h : CHeap} (inv : CInvG V h) :
     Grows NoCont h (calloc h).1 ∧ ∀ lam, (calloc h).1.cells[(calloc h).2]? ≠ some (CCell.lambda lam) := by
   unfold calloc
   cases hf : h.free with
@@ -244,7 +268,7 @@ theorem cwrite_cells (h : CHeap) (p : Nat) (c : CCell) (i : Nat) :
 
 /-- overwriting a cell that holds no lambda, with a cell that is neither a lambda nor (outside `P`) a
     continuation -/
-theorem cwrite_grows {P : Cont → Prop} {h : CHeap} (inv : CInv h) {p : Nat} {c : CCell}
+theorem cwrite_grows {P : Cont → Prop} {h : CHeap} (inv : CInvG V h) {p : Nat} {c : CCell}
     (hp : ∀ lam, h.cells[p]? ≠ some (CCell.lambda lam)) (hc : ∀ lam, c ≠ CCell.lambda lam)
     (hcc : ∀ k, c = CCell.cont k → P k) : Grows P h (cwrite h p c) := by
   refine ⟨by simp [cwrite, inv.sizes], by simpa [cwrite] using inv.shape, inv.noUsed, by simp [cwrite], ?_, ?_, ?_,
@@ -266,7 +290,7 @@ theorem cwrite_grows {P : Cont → Prop} {h : CHeap} (inv : CInv h) {p : Nat} {c
     · exact .inl x
 
 /-- allocate a cell and store a non-code cell in it -/
-theorem cput_grows {P : Cont → Prop} {h : CHeap} (inv : CInv h) {c : CCell} (hc : ∀ lam, c ≠ CCell.lambda lam)
+theorem cput_grows {P : Cont → Prop} {h : CHeap} (inv : CInvG V h) {c : CCell} (hc : ∀ lam, c ≠ CCell.lambda lam)
     (hcc : ∀ k, c = CCell.cont k → P k) : Grows P h (cput h c).1 := by
   obtain ⟨g, hfresh⟩ := calloc_grows inv
   have ginv := g.inv inv (fun c hc => hc.elim)
